@@ -220,7 +220,12 @@ def run(ctx):
             res = {}
             for k in INTEGRAL:
                 try:
-                    res[k] = np.atleast_1d(np.asarray(getattr(fl, k)(r).defuzzify(agg, lo, hi), dtype=float))
+                    if i % 4 == 3:
+                        dzr = fl.settings.factory_manager.defuzzifier.construct(k)
+                        dzr.configure(str(r))
+                    else:
+                        dzr = getattr(fl, k)(r)
+                    res[k] = np.atleast_1d(np.asarray(dzr.defuzzify(agg, lo, hi), dtype=float))
                 except Exception:
                     res[k] = None  # judged by the monitor
             # batch == set by set (exact)
